@@ -23,11 +23,17 @@ type ParseCase struct {
 	// tables with which the same source was parsed earlier in this process (their result is
 	// not looked at): a parser must depend on its own declarations only
 	Prev [][]ref.Op `json:"prev,omitempty"`
+	// Facade: the operators are registered on a yae.Expr (on top of the built-in table) and the
+	// source is parsed by Expr.Parse; 2 = registered after the engine has already parsed once
+	Facade int `json:"facade,omitempty"`
 }
 
 func (c *ParseCase) table() []ref.Op {
 	if c.Ops == nil {
 		return ref.BuiltInOps
+	}
+	if c.Facade > 0 {
+		return append(append([]ref.Op(nil), c.Ops...), ref.BuiltInOps...)
 	}
 	return c.Ops
 }
@@ -115,6 +121,9 @@ func checkParse(c *ParseCase) *Outcome {
 		_, _ = run.YaeParse(c.Src, prev)
 	}
 	tree, p := run.YaeParse(c.Src, c.Ops)
+	if c.Facade > 0 {
+		tree, p = run.YaeParseFacade(c.Src, c.Ops, c.Facade == 2)
+	}
 	if p != nil && p.Runtime {
 		return bad("parser failed with a runtime error instead of a syntax error: %s (%s)", p.Text, desc())
 	}
@@ -134,6 +143,9 @@ func checkParse(c *ParseCase) *Outcome {
 	classes := []string{"mode:" + c.Mode}
 	if len(c.Prev) > 0 {
 		classes = append(classes, "after-sibling-table")
+	}
+	if c.Facade > 0 {
+		classes = append(classes, fmt.Sprintf("through-engine:late-registration=%v", c.Facade == 2))
 	}
 	if c.Ops != nil {
 		classes = append(classes, "custom-table")
@@ -588,6 +600,22 @@ func genParseCase(t *rapid.T) *ParseCase {
 
 func genParseCase0(t *rapid.T) *ParseCase {
 	c := &ParseCase{Ops: genTable(t)}
+	if c.Ops != nil && rapid.IntRange(0, 3).Draw(t, "facade") == 0 {
+		// through the engine: only operators whose names the built-in table does not use
+		builtin := map[string]bool{}
+		for _, o := range ref.BuiltInOps {
+			builtin[o.Name] = true
+		}
+		var custom []ref.Op
+		for _, o := range c.Ops {
+			if !builtin[o.Name] {
+				custom = append(custom, o)
+			}
+		}
+		if len(custom) > 0 {
+			c.Ops, c.Facade = custom, 1+rapid.IntRange(0, 1).Draw(t, "late")
+		}
+	}
 	ops := c.table()
 	g := &treeGen{t: t}
 	for _, o := range ops {
@@ -725,7 +753,7 @@ func tableAlphabet(ops []ref.Op) []string {
 }
 
 func TestC08(t *testing.T) {
-	R.Rule = "operator tables of 1-8 operators over a symbol alphabet (symbolic 1-3 characters, identifier-like incl. non-ASCII; prefix / postfix / infix left / right / non-associative; a symbol may be prefix and one other role; binding powers 0.5..13.5 incl. fractional, equal and built-in-colliding ones) and the built-in table; expression trees to depth 4 over atoms, all operator kinds, ?:, calls, method calls, dynamic calls, members, subscripts and list / map / object literals, rendered fully parenthesised, with the minimal parentheses the reference needs, with redundant ones, or without any; random token soup; bracket literals mixing plain elements with key: value pairs (in a call, under a subscript, alone); exhaustive token sequences up to length 4 (quick) / 5 (thorough) over a 17-token alphabet for the built-in table and one shorter for three fixed custom tables; white space between tokens drawn from blanks and line breaks; one case in three first parses the same source with one or two sibling tables (powers differing only in the fraction, swapped / shifted powers, another fixity, reversed declaration order, one operator fewer) in the same process; oracle: reference precedence parser (accept / reject, tree, every node's span line and column), and round trip of the rendering; non-trivial = >= 2 different operators interacting, or a prefix / postfix next to an infix, or a rejected non-associative chain, or >= 3 tokens with >= 2 node kinds"
+	R.Rule = "operator tables of 1-8 operators over a symbol alphabet (symbolic 1-3 characters, identifier-like incl. non-ASCII; prefix / postfix / infix left / right / non-associative; a symbol may be prefix and one other role; binding powers 0.5..13.5 incl. fractional, equal and built-in-colliding ones) and the built-in table; expression trees to depth 4 over atoms, all operator kinds, ?:, calls, method calls, dynamic calls, members, subscripts and list / map / object literals, rendered fully parenthesised, with the minimal parentheses the reference needs, with redundant ones, or without any; random token soup; bracket literals mixing plain elements with key: value pairs (in a call, under a subscript, alone); exhaustive token sequences up to length 4 (quick) / 5 (thorough) over a 17-token alphabet for the built-in table and one shorter for three fixed custom tables; white space between tokens drawn from blanks and line breaks; one custom table in four is registered on a yae.Expr on top of the built-in table and parsed through Expr.Parse, half of those after the engine has already parsed something; one case in three first parses the same source with one or two sibling tables (powers differing only in the fraction, swapped / shifted powers, another fixity, reversed declaration order, one operator fewer) in the same process; oracle: reference precedence parser (accept / reject, tree, every node's span line and column), and round trip of the rendering; non-trivial = >= 2 different operators interacting, or a prefix / postfix next to an infix, or a rejected non-associative chain, or >= 3 tokens with >= 2 node kinds"
 	R.Assume = []string{"ref.Parse is the reading of the declarations' meaning; tables where one symbol has two infix/postfix roles or re-declares . ? or punctuation are out of domain; member names that are not identifier-like and operators of equal power but different associativity are unspecified (counted, tree not compared)"}
 	reportKnown(t, "C08")
 	runRegress(t, "C08")
